@@ -125,6 +125,24 @@ pub fn min_sec0() -> AcceptableOptions {
     AcceptableOptions::MinConjecturedSecurity(0)
 }
 
+/// As `parse_streamed`, but the simulated source may also fail: Interrupted, WouldBlock, Other,
+/// UnexpectedEof errors and transient zero-length reads at taped instants (hostile deliveries only).
+pub fn parse_streamed_faulty(
+    ch: &mut Chooser,
+    ctx: &mut Ctx,
+    bytes: &[u8],
+) -> Result<Result<Proof, utils::DeserializationError>, PanicInfo> {
+    let style = CHUNK_STYLES[ch.weighted("xport.style", &[1, 2, 2, 3, 3, 3])];
+    let k = ch.biased("xport.k", 1, 300, &[2, 3, 7, 8, 9, 255, 256]) as usize;
+    let faults = ReadFaults { interrupted: true, would_block: true, other: true, unexpected_eof: true, transient_zero: true, budget: 1 + ch.index("xport.faults", 3) as u32 };
+    let stats = ReadStats::default();
+    let world = RefCell::new(World { ch, ctx });
+    let mut src = SimRead::new(&world, bytes, style, k, faults, &stats);
+    let mut adapter = ReadAdapter::new(&mut src);
+    stats.begin_op(64);
+    guard(|| Proof::read_from(&mut adapter))
+}
+
 /// Parse a proof from bytes delivered through ReadAdapter over a chunking SimRead.
 pub fn parse_streamed(
     ch: &mut Chooser,
